@@ -153,6 +153,9 @@ fn guard<F: FnOnce() -> String>(f: F) -> String {
     }
 }
 thread_local! {
+    /// set by a runtime error of a Gluon call: the thread keeps the frames of the failed call and
+    /// later calls on it report stale errors, so the VM is replaced
+    static DIRTY_HARD: std::cell::Cell<bool> = std::cell::Cell::new(false);
     static DIRTY: std::cell::Cell<bool> = std::cell::Cell::new(false);
     static LAST_PANIC: std::cell::RefCell<String> = std::cell::RefCell::new(String::new());
 }
@@ -238,7 +241,7 @@ struct St<T> {
     f_id: Option<OwnedFunction<fn(T) -> T>>,
     f_rb: Option<OwnedFunction<fn(T) -> T>>,
     f_wrap: Option<OwnedFunction<fn(T) -> Option<T>>>,
-    f_serrb: Option<Box<dyn std::any::Any>>,
+    serrb_ok: bool,
     serrb_tried: bool,
 }
 
@@ -275,7 +278,14 @@ where
         Err(_) => None,
     };
     DIRTY.with(|d| d.set(false));
-    St { vm, f_id, f_rb, f_wrap, f_serrb: None, serrb_tried: false }
+    DIRTY_HARD.with(|d| d.set(false));
+    St { vm, f_id, f_rb, f_wrap, serrb_ok: false, serrb_tried: false }
+}
+
+fn call_err(e: &gluon::vm::Error) -> String {
+    DIRTY.with(|d| d.set(true));
+    DIRTY_HARD.with(|d| d.set(true));
+    vm_err_class(e)
 }
 
 fn vm_healthy(vm: &RootedThread) -> bool {
@@ -315,7 +325,7 @@ fn run_route<T>(
     if DIRTY.with(|d| d.get()) {
         // a panic inside the VM may have poisoned one of its locks: probe it, and replace it when
         // it is unusable (never dropping it: the destructors would panic again)
-        if vm_healthy(&st.vm) {
+        if !DIRTY_HARD.with(|d| d.get()) && vm_healthy(&st.vm) {
             DIRTY.with(|d| d.set(false));
         } else {
             std::mem::forget(std::mem::replace(st, mk_state::<T>(progs)));
@@ -324,6 +334,11 @@ fn run_route<T>(
     cfg.emit(&format!("B {} {}", k, name));
     LAST_PANIC.with(|p| p.borrow_mut().clear());
     let r = guard(|| f(st));
+    if r == "FAIL" && name != "depush" && name != "deser" {
+        // a panic inside a VM call leaves poisoned locks behind (not always the ones the probe
+        // touches); `De::from_value` of depush/deser runs outside the VM's locks
+        DIRTY_HARD.with(|d| d.set(true));
+    }
     let note = LAST_PANIC.with(|p| p.borrow().clone());
     cfg.emit(&format!("E {} {}\t{}\t{}", k, name, r, note.replace(['\n', '\t'], " ")));
 }
@@ -341,7 +356,7 @@ where
     let progs = Progs {
         id: ty.program(&ty.gty(true), "x"),
         rb: ty.program(&ty.gty(true), &ty.rebuild_body()),
-        wrap: ty.program(&format!("Option {}", ty.gty(true)), "Some x"),
+        wrap: ty.program(&format!("Option {}", ty.gty(true)), "mk_some x"),
     };
     let mut st = mk_state::<T>(&progs);
 
@@ -376,21 +391,21 @@ where
             run_route(cfg, &mut st, &progs, &done, k, "id", &mut |st| match st.f_id.as_mut() {
                 Some(f) => match f.call(x.clone()) {
                     Ok(y) => render(&y),
-                    Err(e) => vm_err_class(&e),
+                    Err(e) => call_err(&e),
                 },
                 None => "NOCOMPILE".to_string(),
             });
             run_route(cfg, &mut st, &progs, &done, k, "rb", &mut |st| match st.f_rb.as_mut() {
                 Some(f) => match f.call(x.clone()) {
                     Ok(y) => render(&y),
-                    Err(e) => vm_err_class(&e),
+                    Err(e) => call_err(&e),
                 },
                 None => "NOCOMPILE".to_string(),
             });
             run_route(cfg, &mut st, &progs, &done, k, "wrap", &mut |st| match st.f_wrap.as_mut() {
                 Some(f) => match f.call(x.clone()) {
                     Ok(y) => render(&y),
-                    Err(e) => vm_err_class(&e),
+                    Err(e) => call_err(&e),
                 },
                 None => "NOCOMPILE".to_string(),
             });
@@ -551,21 +566,31 @@ where
     run_route(cfg, st, progs, done, k, "serrb", &mut |st| {
         if !st.serrb_tried {
             st.serrb_tried = true;
-            st.f_serrb = match st.vm.run_expr::<OwnedFunction<fn(Ser<T>) -> T>>("c11serrb", &progs.rb) {
-                Ok((f, _)) => Some(Box::new(f)),
+            st.serrb_ok = match st.vm.load_script("c11serrb", &progs.rb) {
+                Ok(()) => true,
                 Err(e) => {
                     eprintln!("compile serrb failed: {}", e);
-                    None
+                    false
                 }
             };
         }
-        match st.f_serrb.as_mut().and_then(|b| b.downcast_mut::<OwnedFunction<fn(Ser<T>) -> T>>()) {
-            Some(f) => match f.call(Ser(x.clone())) {
+        if !st.serrb_ok {
+            return "NOCOMPILE".to_string();
+        }
+        // every call runs on a fresh child thread: an ill-typed argument makes the interpreter
+        // fail and the failed thread is not reusable
+        let t = match st.vm.new_thread() {
+            Ok(t) => t,
+            Err(e) => return vm_err_class(&e),
+        };
+        let r = match t.get_global::<FunctionRef<fn(Ser<T>) -> T>>("c11serrb") {
+            Ok(mut f) => match f.call(Ser(x.clone())) {
                 Ok(y) => render(&y),
                 Err(e) => vm_err_class(&e),
             },
-            None => "NOCOMPILE".to_string(),
-        }
+            Err(e) => vm_err_class(&e),
+        };
+        r
     });
 }
 
@@ -813,6 +838,10 @@ fn main() {
         return;
     }
 
+    if argv.get(1).map(|s| s.as_str()) == Some("probe") {
+        probe();
+        return;
+    }
     let args = Args::parse();
     if let Some(path) = &args.replay {
         replay(path);
@@ -872,7 +901,7 @@ fn main() {
                 fields.push(format!("{}={}", r, v));
                 evaluations += 1;
             }
-            writeln!(impl_out, "{}", fields.join("|")).unwrap();
+            writeln!(impl_out, "{}", fields.join("\t")).unwrap();
             let notes: Vec<String> = routes.iter().filter(|(_, v)| !v.1.is_empty()).map(|(r, v)| format!("{}: {}", r, v.1)).collect();
             writeln!(cases_txt, "V\t{}\t{}\t{}\t{}\t{}", idx, name, k, val, notes.join(" ;; ")).unwrap();
             hist.add(&format!("type:{}", name));
@@ -891,7 +920,7 @@ fn main() {
                     Some((s, v)) => (s, v),
                     None => (x.as_str(), "-"),
                 };
-                writeln!(impl_out, "sig={}|fsig={}|x={}", sig, fs, xv).unwrap();
+                writeln!(impl_out, "sig={}\tfsig={}\tx={}", sig, fs, xv).unwrap();
                 writeln!(cases_txt, "G\t{}\t{}\t{}\t{}\t{}", idx, name, w, family.get(*w).map(|f| f.0.as_str()).unwrap_or("?"), pval).unwrap();
                 evaluations += 2;
                 hist.add("pair");
@@ -942,4 +971,45 @@ fn replay(path: &str) {
     for c in crashes {
         println!("crash: {}", c);
     }
+}
+
+/// Development aid: prints the error of a refused request.
+fn probe() {
+    let vm = new_vm(false);
+    let ty = <Option<Option<i64>> as M>::ty();
+    if std::env::var("PROBE_PROGS").is_ok() {
+        let progs = Progs {
+            id: ty.program(&ty.gty(true), "x"),
+            rb: ty.program(&ty.gty(true), &ty.rebuild_body()),
+            wrap: ty.program(&format!("Option {}", ty.gty(true)), "mk_some x"),
+        };
+        let st = mk_state::<Option<Option<i64>>>(&progs);
+        std::mem::forget(st);
+        let which = std::env::var("PROBE_PROGS").unwrap();
+        if which.contains("i") { vm.run_expr::<OwnedFunction<fn(Option<Option<i64>>) -> Option<Option<i64>>>>("c11id", &progs.id).unwrap(); }
+        if which.contains("r") { vm.run_expr::<OwnedFunction<fn(Option<Option<i64>>) -> Option<Option<i64>>>>("c11rb", &progs.rb).unwrap(); }
+        if which.contains("w") { vm.run_expr::<OwnedFunction<fn(Option<Option<i64>>) -> Option<Option<Option<i64>>>>>("c11wrap", &progs.wrap).unwrap(); }
+        if which.contains("l") { vm.load_script("c11f", &progs.id).unwrap(); }
+    }
+    let x: Option<Option<i64>> = Some(None);
+    gluon::import::add_extern_module(&vm, "c11probe", move |thread| ExternModule::new(thread, x.clone()));
+    vm.run_expr::<OpaqueValue<RootedThread, Hole>>("c11imp", "import! c11probe").unwrap();
+    if std::env::var("PROBE_PRE").is_ok() {
+        println!("pre i64: {:?}", vm.get_global::<i64>("c11probe").is_ok());
+        println!("pre Option<i64>: {:?}", vm.get_global::<Option<i64>>("c11probe").is_ok());
+        println!("pre Option<String>: {:?}", vm.get_global::<Option<String>>("c11probe").is_ok());
+    }
+    match vm.get_global::<Option<Option<i64>>>("c11probe") {
+        Ok(v) => println!("ok {:?}", v),
+        Err(e) => println!("err {}", e),
+    }
+    println!("global type: {}", vm.get_global_type("c11probe").unwrap());
+    println!("make_type:   {}", <Option<Option<i64>> as VmType>::make_type(&vm));
+    println!("make_forall: {}", <Option<Option<i64>> as VmType>::make_forall_type(&vm));
+    vm.load_script("c11probe2", "let { Option } = import! std.types\nlet x : Option (Option Int) = Some None\nx").unwrap();
+    match vm.get_global::<Option<Option<i64>>>("c11probe2") {
+        Ok(v) => println!("ok {:?}", v),
+        Err(e) => println!("err {}", e),
+    }
+    println!("global type: {}", vm.get_global_type("c11probe2").unwrap());
 }
